@@ -3,7 +3,9 @@
 package main
 
 import (
+	"encoding/binary"
 	"fmt"
+	"net"
 	"sort"
 
 	"verif/harness/hv"
@@ -12,6 +14,10 @@ import (
 	"github.com/bfenetworks/bfe/bfe_balance/backend"
 	"github.com/bfenetworks/bfe/bfe_balance/bal_gslb"
 	"github.com/bfenetworks/bfe/bfe_balance/bal_slb"
+	"github.com/bfenetworks/bfe/bfe_basic"
+	"github.com/bfenetworks/bfe/bfe_config/bfe_cluster_conf/cluster_conf"
+	"github.com/bfenetworks/bfe/bfe_http"
+	"github.com/spaolacci/murmur3"
 	"github.com/bfenetworks/bfe/bfe_config/bfe_cluster_conf/cluster_table_conf"
 	"github.com/bfenetworks/bfe/bfe_config/bfe_cluster_conf/gslb_conf"
 )
@@ -69,6 +75,82 @@ func walk(t *bfe_balance.BalTable, clusters map[int]bool) (dump hv.L, live map[*
 		dump = append(dump, hv.L{hv.I(c), subs})
 	}
 	return dump, live
+}
+
+// residueKeys[T][r] = a 4-byte client IP whose murmur3 hash is r modulo T
+var residueKeys = map[int][][]byte{}
+
+func keysFor(T int) [][]byte {
+	if ks, ok := residueKeys[T]; ok {
+		return ks
+	}
+	ks := make([][]byte, T)
+	found := 0
+	for c := uint32(1); found < T; c++ {
+		k := make([]byte, 4)
+		binary.BigEndian.PutUint32(k, c)
+		r := int(murmur3.Sum64(k) % uint64(T))
+		if ks[r] == nil {
+			ks[r] = k
+			found++
+		}
+	}
+	residueKeys[T] = ks
+	return ks
+}
+
+const picksPerResidue = 64
+
+// selection asks the REAL BalanceGslb.Balance (retry 0, cross retry off, client-ip hash, WrrSmooth) with one key per
+// hash residue and picksPerResidue calls each; returns the sets of selected sub*100+addr and of error codes.
+func selection(bal *bal_gslb.BalanceGslb) (hv.Val, hv.Val) {
+	cross, rmax, st, hdr, sticky, mode := 0, 2, cluster_conf.ClientIpOnly, "", false, cluster_conf.BalanceModeWrr
+	bal.SetGslbBasic(cluster_conf.GslbBasicConf{CrossRetry: &cross, RetryMax: &rmax,
+		HashConf: &cluster_conf.HashConf{HashStrategy: &st, HashHeader: &hdr, SessionSticky: &sticky}, BalanceMode: &mode})
+	picks, errs := map[int]bool{}, map[int]bool{}
+	one := func(key []byte) {
+		defer func() {
+			if e := recover(); e != nil {
+				errs[9] = true
+			}
+		}()
+		req := &bfe_basic.Request{HttpRequest: &bfe_http.Request{Header: make(bfe_http.Header), RequestURI: "/"},
+			Stat: &bfe_basic.RequestStat{}}
+		req.ClientAddr = &net.TCPAddr{IP: net.IP(key), Port: 1}
+		b, err := bal.Balance(req)
+		switch {
+		case err == nil && b != nil:
+			if b.SubCluster != req.Backend.SubclusterName {
+				errs[8] = true
+			}
+			picks[num(b.SubCluster)*100+num(b.Addr)] = true
+		case err == bfe_basic.ErrBkNoSubCluster:
+			errs[1] = true
+		case err == bfe_basic.ErrBkNoBackend:
+			errs[2] = true
+		default:
+			errs[8] = true
+		}
+	}
+	T := bal_gslb.VerifC09Total(bal)
+	if T <= 0 {
+		one([]byte{0, 0, 0, 1})
+	} else {
+		for _, k := range keysFor(T) {
+			for p := 0; p < picksPerResidue; p++ {
+				one(k)
+			}
+		}
+	}
+	set := func(m map[int]bool) hv.Val {
+		var l []int
+		for x := range m {
+			l = append(l, x)
+		}
+		sort.Ints(l)
+		return hv.LI(l)
+	}
+	return set(picks), set(errs)
 }
 
 func closed(b *backend.BfeBackend) bool {
@@ -148,7 +230,19 @@ func impl(in hv.Val) hv.Val {
 			for b := range live {
 				seen[b] = true
 			}
-			out = append(out, hv.L{hv.Bool(rerr != nil), dump, hv.L{hv.I(orphans), hv.I(nclosed)}})
+			sel := hv.L{}
+			var cs []int
+			for c := range clusters {
+				cs = append(cs, c)
+			}
+			sort.Ints(cs)
+			for _, c := range cs {
+				if bal, err := t.Lookup(cn(int64(c))); err == nil {
+					p, e := selection(bal)
+					sel = append(sel, hv.L{hv.I(c), p, e})
+				}
+			}
+			out = append(out, hv.L{hv.Bool(rerr != nil), dump, hv.L{hv.I(orphans), hv.I(nclosed)}, sel})
 		case 2:
 			if bal, err := t.Lookup(cn(hv.AsInt(op[1]))); err == nil {
 				names, _, brrs := bal_gslb.VerifC09Subs(bal)
@@ -201,6 +295,7 @@ func gen(r *hv.Rng, i int, tier string) (string, hv.Val) {
 	nre := r.Range(1, 8)
 	ops := hv.L{}
 	class := "plain"
+	drained := false
 	zero := r.Chance(1, 12) // allow a total-weight-0 gslb conf somewhere (finding class)
 	// a slowly drifting configuration: keeps most things between reloads
 	type key struct{ c, s int }
@@ -253,6 +348,38 @@ func gen(r *hv.Rng, i int, tier string) (string, hv.Val) {
 				}
 			}
 		}
+		// drain scenario: every existing sub-cluster of one cluster goes to weight 0 and a new one, whose name sorts
+		// first or last, becomes the only weighted one (the `single` / avail short-cut of BalanceGslb)
+		if r.Chance(1, 3) {
+			c := r.Intn(3)
+			if subs, ok := clus[c]; ok && len(subs) > 0 && len(subs) < 4 {
+				var unused []int
+				for s := 0; s < 4; s++ {
+					if _, ok := subs[s]; !ok {
+						unused = append(unused, s)
+					}
+				}
+				ns := unused[0]
+				if r.Bool() {
+					ns = unused[len(unused)-1]
+				}
+				for s := 0; s < 4; s++ {
+					if _, ok := subs[s]; ok {
+						subs[s] = 0
+					}
+				}
+				subs[ns] = r.Range(1, 3)
+				kk := key{c, ns}
+				if bks[kk] == nil {
+					bks[kk] = map[int][2]int{}
+				}
+				for n := r.Range(1, 3); n > 0; n-- {
+					a := r.Intn(6)
+					bks[kk][a] = [2]int{a, r.Range(1, 3)}
+				}
+				drained = true
+			}
+		}
 		g := hv.L{}
 		b := hv.L{}
 		for c := 0; c < 3; c++ {
@@ -270,7 +397,7 @@ func gen(r *hv.Rng, i int, tier string) (string, hv.Val) {
 				if len(subs) == 0 {
 					subs[r.Intn(4)] = 1
 				}
-				for s := range subs {
+				for s := 0; s < 4; s++ {
 					if _, ok := subs[s]; ok {
 						subs[s] = r.Range(1, 3)
 						break
@@ -331,6 +458,9 @@ func gen(r *hv.Rng, i int, tier string) (string, hv.Val) {
 			}
 			ops = append(ops, hv.L{hv.I(2), hv.I(c), hv.I(s), hv.I(a), hv.I(kind), hv.I(v)})
 		}
+	}
+	if drained && class != "gslb-zero" {
+		class = "drain-single"
 	}
 	if nre == 1 {
 		class = "triv-one-reload"
